@@ -8,6 +8,7 @@ from engine.runner import Acc
 from engine.util import call, chunks
 from spec import cpr as C
 from spec import frames as F
+from spec import crc as R
 from spec import bds_rules as BR
 from fractions import Fraction as Fr
 
@@ -235,6 +236,8 @@ def related_frames():
           F.es(F.me(19, [(6, 3, 1), (15, 10, 121), (26, 10, 101), (38, 9, 5)]), aa, 5, 17),
           F.es(F.me(4, [(6, 3, 3)]) | 0x04D2C31CB1C3, aa, 5, 17),
           F.es(F.me(31, [(41, 3, 2)]), aa, 5, 17),
+          F.es(F.me(28, [(6, 3, 1), (9, 3, 1), (12, 13, 0x0AAA)]), aa, 5, 17),          # emergency / priority status: general emergency
+          F.es(F.me(29, [(6, 2, 1), (10, 11, 1001), (21, 9, 300), (30, 1, 1), (32, 8, 40), (47, 1, 1)]), aa, 5, 18),   # target state and status
           F.long_ap(20, 0x0001838, BR.valid("BDS50")[40], aa), F.long_ap(21, 0x0000AAA, BR.valid("BDS60")[40], aa)]
     return fr
 
@@ -249,13 +252,23 @@ def w_related(part):
         TABLE = {t[0]: t for t in table()}
     acc = Acc()
     frames = related_frames()
+    ngood = len(frames)
+    # garbled feed lines between the good ones: whatever a decoder does with them (any exception is fine), the good frames
+    # decoded afterwards must be answered as before - one bad line must not poison the process
+    g = frames[0]
+    frames = frames + [g[:12] + "G" + g[13:], g[:20] + "zz" + g[22:], g[:27], g + "0", "", g[:10] + " " + g[11:], g[:8] + "+" + g[9:], "x" * 28]
     names = [(name, extra) for name, f, extras, kind, guard in table() for extra in extras[:1]]
     for name, extra in names[part::8]:
         f = TABLE[name][1]
         iso = {}
         for L in (1, 2, 3):
             for seq in itertools.product(range(len(frames)), repeat=L):
+                if L == 3 and sum(i >= ngood for i in seq) != 1:
+                    continue            # triples: exactly one garbled line among good frames (pairs / singles: everything)
                 for k, i in enumerate(seq):
+                    if i >= ngood:
+                        call(f, frames[i], *extra)          # outcome not judged
+                        continue
                     acc.n += 1
                     if name == "tell":
                         buf = io.StringIO()
@@ -325,6 +338,44 @@ def w_corners(arg):
                 if s:
                     acc.bad(s + ":joint_corner_values", {"kind": "call", "name": name, "extra": list(extra), "msg": msg})
         acc.out.add(("corner", tc, msg))
+    return acc.res()
+
+
+def w_addr_indep(part):
+    """no decoder other than the address decoders may depend on WHO sent a frame: the related frames of one aircraft are
+    rebuilt for every address of engine.util.address_alphabet (corners, source literals, their neighbours, midpoints of
+    the ranges the source delimits - e.g. the interior of unallocated address blocks) and every callable must answer as it
+    does for the base address."""
+    from engine.util import address_alphabet
+    global TABLE
+    if TABLE is None:
+        TABLE = {t[0]: t for t in table()}
+    acc = Acc()
+    base = related_frames()
+    # not judged: the address decoders themselves, functions that return raw header / frame bits whatever the format
+    # (in DF17/18 the bits common.fs/dr/um slice ARE address bits), the checksum, and the pretty-printer (prints the address)
+    skip = ("tell", "adsb.icao", "common.icao", "allcall.icao", "common.crc", "common.hex2bin", "common.hex2int", "allcall.interrogator",
+            "common.fs", "common.dr", "common.um")
+    names = [(name, extra) for name, f, extras, kind, guard in table() for extra in extras[:1] if name not in skip]
+    b0 = 0x4840D6
+    want = {}
+    for ai, addr in enumerate(address_alphabet()[part::4]):
+        for fi, m in enumerate(base):
+            v = int(m, 16)
+            if (v >> 107) in (17, 18):
+                data = ((v >> 24) & ~(0xFFFFFF << 56)) | (addr << 56)
+                m2 = F.hexn(R.downlink(data, 112, 0), 112)
+            else:
+                m2 = F.hexn((v >> 24 << 24) | ((v & 0xFFFFFF) ^ b0 ^ addr), 112)
+            for name, extra in names:
+                r = repr(call(TABLE[name][1], m2, *extra))
+                acc.n += 1
+                key = (fi, name)
+                if key not in want:
+                    want[key] = repr(call(TABLE[name][1], m, *extra))
+                if r != want[key]:
+                    acc.bad("%s:answer_depends_on_the_address_of_the_sender" % name, {"kind": "addr_indep", "name": name, "extra": list(extra), "msg": m2})
+        acc.out.add(("addr_indep", addr))
     return acc.res()
 
 
@@ -607,6 +658,8 @@ def w_any(t):
         return w_corners(t[1])
     if t[0] == "o":
         return w_periodic(t[1])
+    if t[0] == "i":
+        return w_addr_indep(t[1])
     return w_dispatch(None) if t[0] == "d" else w_frames(t[1])
 
 
@@ -622,6 +675,7 @@ def run(ctx):
     tasks += [("s", part) for part in range(8)]
     tasks += [("a", part) for part in range(4)]
     tasks += [("o", part) for part in range(4)]
+    tasks += [("i", part) for part in range(4)]
     tasks += [("k", (tc, part)) for tc in (19, 29, 31, 28, 5, 11, 4) for part in range(4)]
     tasks += [("c", df) for df in ((0, 4, 5, 11, 16, 17, 18, 20, 21, 24) if not ctx.thorough else range(32))]
     ctx.pmap(w_any, tasks)
@@ -639,6 +693,11 @@ def replay(case):
         return [("adsb.%s:%s:breakpoint_latitude" % (case["fn"], r[1] if r[0] == "exc" else "malformed_result"), case)] if bad else []
     if case["kind"] == "again":
         return stateless(case["msg"])
+    if case["kind"] == "addr_indep":
+        out = []
+        for part in range(4):
+            out += [(s_, c_) for s_, c_ in w_addr_indep(part)["viols"] if c_.get("name") == case["name"]]
+        return out
     if case["kind"] == "partial":
         r = call(getattr(pms.adsb, case["fn"]), *case["args"])
         return [(s_, case) for s_, _ in w_partial(None)["viols"]] if (r[0] == "exc" and r[1] != "RuntimeError") else []
